@@ -35,10 +35,11 @@ ASSUMPTIONS = ['The shard summary of C09 (shard() adds the offset to _start'
 
 TR = 'chainables.transform'
 IU = 'utils.iter_utils'
+IO = 'chainables.io'
 
 
 def run(ctx: Ctx):
-  for r in (r1, r2, r3, r4, r6, r8, r9):
+  for r in (r1, r2, r3, r4, r6, r8, r9, r10):
     ctx.guard(r)
   from mlmverif.props import c02
   ctx.include('R-C10-7', 'a restored pipeline continues with the WHOLE checkpointed'
@@ -145,12 +146,29 @@ def r1(ctx: Ctx):
          and isinstance(x.value, ast.Call) for k in x.value.keywords if k.arg == 'start_index']
   ok = False
   behind = False
+  # straight-line substitution of the locals of `state` (assignments and
+  # augmented assignments in order): the recorded value in terms of fields only
+  env_: dict[str, ast.AST] = {}
+
+  class _Sub(ast.NodeTransformer):
+    def visit_Name(self, nd):
+      import copy as _copy
+      return _copy.deepcopy(env_[nd.id]) if isinstance(nd.ctx, ast.Load) and nd.id in env_ else nd
+
+  def subst_(e):
+    import copy as _copy
+    return _Sub().visit(_copy.deepcopy(e))
+
+  for x in ds.node.body:
+    if isinstance(x, ast.Assign) and len(x.targets) == 1 and isinstance(x.targets[0], ast.Name):
+      env_[x.targets[0].id] = subst_(x.value)
+    elif isinstance(x, ast.AugAssign) and isinstance(x.target, ast.Name):
+      cur = env_.get(x.target.id, ast.Name(id=x.target.id, ctx=ast.Load()))
+      env_[x.target.id] = ast.BinOp(left=cur, op=x.op, right=subst_(x.value))
+    elif isinstance(x, (ast.If, ast.For, ast.While, ast.Try, ast.With)):
+      raise AnalysisError(f'{rule}: DataIterator.state is no longer straight-line code')
   for e_ in rec:
-    if isinstance(e_, ast.Name):
-      vals_ = [x.value for x in walk_no_nested(ds.node) if isinstance(x, ast.Assign)
-               and any(isinstance(t, ast.Name) and t.id == e_.id for t in x.targets)]
-      if len(vals_) == 1:
-        e_ = vals_[0]
+    e_ = subst_(e_)
     if unparse(e_) == 'self._index':
       ok = True
       behind = True   # only right if the index is advanced eagerly on restore
@@ -314,6 +332,75 @@ def r9(ctx: Ctx):
                    ' restore from the same state double-counts every batch of the first resumed run',
                    node=k.value)
   ctx.floor(rule, 1)
+
+
+def r10(ctx: Ctx):
+  rule = 'R-C10-10'
+  ctx.rule(rule, 'a restored iterator keeps its whole configuration: for every class with'
+           ' an explicit __init__ and a from_state that constructs the class again'
+           ' (directly, or through super().from_state(..., **kwargs) whose base builds'
+           ' `self.__class__(data_sources=..., **kwargs)`), every constructor parameter'
+           ' is passed on — a parameter left out silently falls back to its default'
+           ' (error skipping off, no returned aggregate, length 0) and the resumed run'
+           ' differs from the uninterrupted one')
+  repo = ctx.repo
+  n = 0
+  for mod in (TR, IU, IO):
+    for ci in repo.module(mod).classes.values():
+      fs, init = ci.methods.get('from_state'), ci.methods.get('__init__')
+      if fs is None or init is None:
+        continue
+      a = init.node.args
+      params = [p.arg for p in a.posonlyargs + a.args + a.kwonlyargs][1:]
+      pos_params = [p.arg for p in a.posonlyargs + a.args][1:]
+      passed: set[str] | None = None
+      site = None
+      for c in walk_no_nested(fs.node):
+        if not isinstance(c, ast.Call):
+          continue
+        f = unparse(c.func)
+        direct = f in (ci.name, 'self.__class__', 'type(self)', 'cls')
+        via_super = f == 'super().from_state'
+        if not (direct or via_super):
+          continue
+        kws = {k.arg for k in c.keywords if k.arg}
+        star = any(k.arg is None for k in c.keywords)
+        if direct:
+          got = set(pos_params[:len(c.args)]) | kws
+        else:
+          base_kw = set()
+          for b in repo.mro(ci)[1:]:
+            bfs = b.methods.get('from_state')
+            if bfs is None:
+              continue
+            for bc in walk_no_nested(bfs.node):
+              if isinstance(bc, ast.Call) and unparse(bc.func) in ('self.__class__', 'type(self)') and any(
+                  k.arg is None for k in bc.keywords):
+                base_kw = {k.arg for k in bc.keywords if k.arg}
+            break
+          if not base_kw:
+            raise AnalysisError(f'{rule}: base from_state of {ci.name} does not build self.__class__(**kwargs)')
+          got = kws | base_kw
+        if star and direct:
+          got = None  # pure forwarder: the caller decides
+        passed, site = got, c
+      if site is None:
+        continue
+      if passed is None:
+        ctx.info(rule, fs, f'{ci.name}.from_state forwards **kwargs (its callers are checked)')
+        continue
+      n += 1
+      missing = [p_ for p_ in params if p_ not in passed]
+      if missing:
+        ctx.fail(rule, fs, f'{ci.name}.from_state passes every constructor parameter on',
+                 f'{ci.name}.from_state rebuilds the iterator without {missing}: the restored'
+                 ' object falls back to the constructor defaults for them — e.g. error skipping'
+                 ' switched off, `state` missing so that the final StopIteration carries no'
+                 ' AggregateResult, total/len reset — and the resumed run no longer behaves like'
+                 ' the interrupted one', node=site)
+      else:
+        ctx.ok(rule, fs, f'{ci.name}.from_state passes {sorted(passed)}', site)
+  ctx.floor(rule, 2, n)
 
 
 def r3(ctx: Ctx):
@@ -571,6 +658,20 @@ _F = 'chainables/io.py'
 _T = 'chainables/transform.py'
 _U = 'utils/iter_utils.py'
 VARIANTS = [
+    B('dataiter-state-rounded-to-stride', _F,
+      '    start_index = max(self._index, self.config.state.start_index)\n    return dc.replace(self.config.state, start_index=start_index)',
+      '    start_index = max(self._index, self.config.state.start_index)\n    start_index += (start_index - self.config.state.shard_index) % self.config.state.num_shards\n    return dc.replace(self.config.state, start_index=start_index)',
+      'R-C10-1'),
+    OK('dataiter-state-max-in-two-steps', _F,
+       '    start_index = max(self._index, self.config.state.start_index)\n    return dc.replace(self.config.state, start_index=start_index)',
+       '    restored = self.config.state.start_index\n    position = self._index\n    start_index = max(restored, position)\n    return dc.replace(self.config.state, start_index=start_index)'),
+    B('revert-chained-restore-keeps-config', _T,
+      '        # Only its truthiness is used: whether there is an aggregate to return.\n        state=self._with_agg,\n        total=self._total,\n        single_batch=self._single_batch,\n',
+      '', 'R-C10-10'),
+    B('restore-forgets-ignore-error', _T,
+      '        runner=self._runner,\n        ignore_error=self._ignore_error,\n',
+      '        runner=self._runner,\n', 'R-C10-10',
+      extra=[(_T, '      ignore_error: bool,\n      with_result: bool = True,', '      ignore_error: bool = False,\n      with_result: bool = True,')]),
     B('revert-linked-chain-restore', _T,
       '    last = self._iterators[-1]\n    iterators = [last.from_state(state[last.name])]\n    while len(iterators) < len(self._iterators):\n      (upstream,) = iterators[0].data_sources\n      iterators.insert(0, upstream)',
       '    iterators = [it.from_state(state[it.name]) for it in self._iterators]', 'R-C10-8'),
